@@ -83,7 +83,11 @@ pub fn render(s: &TypeSpec) -> Option<Rendered> {
 }
 
 pub fn run(ctx: &Ctx) -> i32 {
-    let b = Behaviour {
+    crate::props::behave::run(ctx, &behaviour())
+}
+
+pub fn behaviour() -> Behaviour {
+    Behaviour {
         prop: "C10",
         rule: "structs and enums with 1..4 Into targets from {u8,u16,u32,u64,i64,String,&'static str,Wrap}, field markers with and without methods, sole-field \
                and unique-same-type selection, two same-typed candidates with one marked; for every target, variant and value x.into() is compared with the \
@@ -97,6 +101,5 @@ pub fn run(ctx: &Ctx) -> i32 {
         thorough: 8000,
         batch: 25,
         assumptions: &["m_into_* methods add a target-specific offset so that method identity is observable"],
-    };
-    crate::props::behave::run(ctx, &b)
+    }
 }
